@@ -281,7 +281,8 @@ def verify_unit(unit, digit, mode, canary=False, use_cache=True):
         path = os.path.join(vdir, tag + '.rs')
         open(path, 'w').write(text)
         res = run_verus(path, multiple_errors=(200 if canary else 8))
-        own = [it for it in g.items if it.entry.unit == unit and it.kind in ('fn', 'const', 'proof') and not getattr(it, 'assumed', False)]
+        own = [it for it in g.items if it.entry.unit == unit and it.kind in ('fn', 'const', 'proof') and not getattr(it, 'assumed', False) and not getattr(it, 'lifted', False)]
+        lifted_keys = sorted({it.key for it in g.items if it.kind == 'fn' and getattr(it, 'lifted', False)})
         assumed_keys = sorted({it.key for it in g.items if it.kind in ('fn', 'const') and it.assumed})
         stubs_used = sorted(it.key for it in g.items if it.entry.unit != unit and it.kind in ('fn', 'const'))
         crate = tag
@@ -364,7 +365,7 @@ def verify_unit(unit, digit, mode, canary=False, use_cache=True):
                verus_status=res['status'], verified=res.get('verified'), errors=res.get('errors'),
                ran_verification=bool(ran_verification), items=items, problems=problems,
                other_errors=others[:10], unattributed_failures=[f for f in failures if f['item'] is None or f['item'] not in {i.key for i in own}][:10],
-               stubs=stubs_used, assumed=assumed_keys, stderr_tail=res.get('stderr_tail', ''),
+               stubs=stubs_used, assumed=assumed_keys, lifted=lifted_keys, stderr_tail=res.get('stderr_tail', ''),
                n_lines=text.count('\n'), degraded=sorted(degrade))
     for cp in (cpath, cpath2):
         tmp = cp + '.tmp%d' % os.getpid()
@@ -408,6 +409,8 @@ def _fn_matches(fn, it, crate):
         return parts[-1] == it.entry.key
     if it.kind == 'fn' and 'ext_trait' in it.entry.opts:
         m = re.match(r'impl\((.*)\)$', kparts[-2] if len(kparts) >= 2 else '')
+        if it.impl_header is None:
+            return True     # R17f: emitted as a free fn with a unique name
         return len(parts) >= 2 and m is not None and parts[-2] == re.split(r'[<]', m.group(1).split('for')[-1])[0]
     return parts[-2:] == kparts[-2:] if len(kparts) >= 2 else parts[-1] == kparts[-1]
 
